@@ -196,6 +196,9 @@ def cases_for_expressions(name, exprs, options=None):
 
 
 def cases_for_entry(entry, options=None):
+    if getattr(entry, "options", None) and options is None:
+        from . import pipeline
+        options = pipeline.default_options(**entry.options)   # e.g. the sesquilinear demo only exists in complex mode
     objs = entry.build()
     if entry.kind == "expression":
         return cases_for_expressions(entry.name, objs, options)
